@@ -1217,3 +1217,5 @@ UNITS = [ServerCreate, ServerCreateInterference, ServerCreateBadArgs, ServerCrea
 SCENARIOS = [('Server.', 'replay/scenarios/c13_rewrap_vs_last_decref.py'), ('', 'replay/scenarios/c13_refcount_histories.py', [1, 2, 3, 4, 5, 6])]
 BOUNDED = [{'function': 'whole histories across processes (create/pickle/unpickle/child/store/remove/managed/delete)', 'method': 'runtime scenario replay/scenarios/c13_refcount_histories.py against a reference-count model', 'bound': '6 seeds x 45 steps (thorough tier and fallback)', 'counted_as_proved': False}]
 THOROUGH_SCENARIOS = [('', 'replay/scenarios/c13_refcount_histories.py', list(range(7, 31)), 600)]
+from contracts.c14 import IteratorProxyIter      # noqa: E402  ('stays alive AND USABLE': one consumer must not finalize the shared hosted iterator)
+UNITS += [IteratorProxyIter]
